@@ -119,7 +119,9 @@ def close(a, b, ulps=4):
         if x.shape != y.shape or x.dtype != y.dtype:
             return f'{k}: shapes/dtypes {x.shape}/{x.dtype} vs {y.shape}/{y.dtype}'
         if x.dtype.kind == 'f':
-            tol = ulps * np.finfo(x.dtype).eps * np.maximum(np.abs(x), np.abs(y))
+            # relative to the column's scale: RSD / velocity-bias sums cancel, and fastmath may fuse a*b+c differently
+            scale = max(float(np.abs(x).max()) if x.size else 0.0, 1.0)
+            tol = ulps * np.finfo(x.dtype).eps * np.maximum(np.maximum(np.abs(x), np.abs(y)), 16 * scale)
             if not (np.abs(x - y) <= tol).all():
                 return f'{k}: {x.tolist()[:6]} vs {y.tolist()[:6]}'
         elif x.tobytes() != y.tobytes():
